@@ -14,8 +14,8 @@ PARTIAL = [
     "process pools (multi.*Container.tessellate, voxelize with num_procs) are runtime behaviour: compared across num_procs in {1,2,4,8} by the harness in floating point; the Lean side only has 'an order preserving map is List.map'",
     "GEOMDL_CACHE_SIZE: the Lean theorem is about an abstract LRU cache of any capacity (functools.lru_cache itself is trusted); the harness imports the package in sub-interpreters under each setting and compares a fixed knot-operation scenario",
     "knot range: proved for curve / surface / volume POINT evaluation, for curve and surface DERIVATIVES (chain-rule factors a^-k, a1^-k*a2^-l; basis tables, A2.3 as coded, rational A4.2 / A4.4; knotvector.normalize: factor (last-first)^k), for knot insertion / removal / refinement at helper level and for one direction of insert_knot / remove_knot / refine_knotvector, and for split (identical pieces). NOT theorems: volume derivatives (library stub), the multi-direction folds insertKnot / removeKnot / refineKnotvector and decompose_* (the statements hold per direction; the fold / repeated split is not assembled), and the fixed tolerance of the code in REFINEMENT: the refinement theorems scale find_multiplicity's tolerance with the knot range (a*tol), i.e. they assume no knot distance falls between tol and a*tol (insert_knot / remove_knot / split also have same-tolerance versions under the explicit hypothesis that every knot equals the parameter or is further than tol away in both ranges)",
-    "evaluator family: A3.2 over A2.3 as coded = A3.3/A3.4 is a theorem on non-empty spans of sorted knot vectors (both equal the true derivative); on the surface side the model of A3.6 / A3.8 is a specification (tensor of two basis tables), so 'SurfaceEvaluator = SurfaceEvaluator2 where both compute an entry' holds by construction of the model and is tied to the code by correspondence only (loops of A3.6-A3.8 not transcribed)",
-    "span search option: termination / legal span index of find_span_binsearch on the whole domain is a theorem without the F-17b hypothesis; equality with the linear search still needs that hypothesis (F-17b is a recorded finding)",
+    "evaluator family: the evaluators AS CODED agree - CurveEvaluator (curveDersA32, A3.2 over A2.3) = CurveEvaluator2 (curveDersAt, A3.3/A3.4) in every entry k <= order (curve_evaluators_as_coded_agree), SurfaceEvaluator2 (surfaceDersA38, A3.7 + A3.8) = SurfaceEvaluator (surfaceDersA36, A3.6) in every entry with k + l <= order (surface_evaluators_as_coded_agree; the other entries of A3.8 stay zero) - on non-empty spans of sorted knot vectors inside the net (both sides equal the true derivative, C02); chain rule under an affine knot map also for the DEFAULT evaluators as coded through the span search on the closed domain (default_curve_derivatives_affine_knots, default_surface_derivatives_affine_knots); the theorems about curveDers / surfaceDersAt are about the A3.3/A3.4 evaluator resp. the tensor model, NOT about the default evaluator (their docs say so)",
+    "span search option: termination / legal span index of find_span_binsearch on the whole domain is a theorem without the F-17b hypothesis, for tolerances 0 < tol < 1/2 only (the model's start index (p+n+1)/2 is the code's int(round((low+high)/2 + tol)) only there; with tol = 9 the real code raises IndexError; the driver runs the shipped tolerance 10e-6); equality with the linear search still needs the F-17b hypothesis (recorded finding)",
 ]
 TRUSTED = ["CPython functools.lru_cache implements the LRU contract", "multiprocessing.Pool.map preserves order"]
 OPS = {'curve': 'ceval', 'surface': 'seval', 'volume': 'veval'}
